@@ -114,6 +114,8 @@ def subst(node, env):
 class WriterModel(object):
     def __init__(self, py, modname='girwriter', cname='GIRWriter', entry='_write_repository', entry_args=('namespace',)):
         self.py = py
+        self.modname = modname
+        self.cname = cname
         self.mod = py.mod(modname)
         self.methods = py.methods(modname, cname)
         if entry not in self.methods:
@@ -186,6 +188,15 @@ class WriterModel(object):
         """elements of a literal tuple/list (directly, or through a local bound to one): (elements, env to read them in)"""
         if isinstance(node, (ast.Tuple, ast.List)) and not any(isinstance(e, ast.Starred) for e in node.elts) and len(node.elts) <= 24:
             return list(node.elts), env
+        if isinstance(node, ast.Attribute) and isinstance(node.value, ast.Name) and node.value.id in ('self', 'cls'):
+            # a class-level literal table that no method rebinds
+            try:
+                cm, cv = self.py.class_attr(self.modname, self.cname, node.attr)
+            except Exception:
+                cv = None
+            rebinds = any(isinstance(x, ast.Attribute) and x.attr == node.attr and isinstance(x.ctx, (ast.Store, ast.Del)) for mf in self.methods.values() for x in ast.walk(mf))
+            if isinstance(cv, (ast.Tuple, ast.List)) and not rebinds and len(cv.elts) <= 24 and not any(isinstance(e, ast.Starred) for e in cv.elts):
+                return list(cv.elts), {}
         if isinstance(node, ast.Name) and isinstance(env.get(node.id), str):
             try:
                 sub = ast.parse(env[node.id], mode='eval').body
@@ -426,6 +437,10 @@ class WriterModel(object):
         nm = P.call_name(e)
         if isinstance(fn, ast.Name) and isinstance(env.get(fn.id), str) and env[fn.id].startswith('self.') and env[fn.id][5:] in self.methods:
             nm = env[fn.id]          # a bound method taken from a dispatch table: `write_node = self._write_x; write_node(node)`
+        if isinstance(fn, ast.Call) and P.call_name(fn) == 'getattr' and len(fn.args) == 2 and P.src(fn.args[0]) == 'self':
+            mn_ = self.fold_text(subst(fn.args[1], env))     # getattr(self, writer_name)(node) with the name taken from a table
+            if isinstance(mn_, str) and mn_ in self.methods:
+                nm = 'self.' + mn_
         if isinstance(fn, ast.Attribute) and isinstance(fn.value, ast.Name) and fn.value.id in lists:
             lst = lists[fn.value.id]
             if fn.attr == 'append' and len(e.args) == 1:
